@@ -1155,6 +1155,7 @@ class DAG(nx.DiGraph):
             bn = self
         else:
             bn = BayesianNetwork(self.edges())
+            bn.add_nodes_from(self.nodes())
 
         if estimator is None:
             estimator = MaximumLikelihoodEstimator
